@@ -920,7 +920,13 @@ func globalWrites(p *Program, report func(fn *ssa.Function, ins ssa.Instruction,
 					// another call Put in, Store/Delete change what every caller sees
 					if sc := x.Call.StaticCallee(); sc != nil && sc.Pkg != nil && sc.Pkg.Pkg.Path() == "sync" && sc.Signature.Recv() != nil && len(x.Call.Args) > 0 {
 						owner := deref(sc.Signature.Recv().Type())
-						if isNamed(owner, "sync", "Pool") && (sc.Name() == "Put" || sc.Name() == "Get") ||
+						if isNamed(owner, "sync", "Pool") && sc.Name() == "Get" && poolValueResetAfterGet(x) {
+							continue // scratch object taken from a pool and reset before use: private to the call
+						}
+						if isNamed(owner, "sync", "Pool") && sc.Name() == "Put" {
+							continue // judged at the matching Get
+						}
+						if isNamed(owner, "sync", "Pool") && sc.Name() == "Get" ||
 							isNamed(owner, "sync", "Map") && (sc.Name() == "Store" || sc.Name() == "LoadOrStore" || sc.Name() == "Delete" || sc.Name() == "LoadAndDelete" || sc.Name() == "Swap") {
 							if g := rootGlobal(x.Call.Args[0]); g != nil {
 								report(fn, ins, g)
@@ -1330,4 +1336,98 @@ func callbackAlwaysNil(p *Program, c *ssa.Call) bool {
 		found = true
 	}
 	return found
+}
+
+// poolValueResetAfterGet: the object returned by a sync.Pool.Get call is reset in the same
+// block before anything else looks at it: a Reset()/Truncate() method call on it, clear(v),
+// v[:0], or a delete-all loop over it that starts right there.
+func poolValueResetAfterGet(get *ssa.Call) bool {
+	vals := map[ssa.Value]bool{get: true}
+	b := get.Block()
+	started := false
+	for _, ins := range b.Instrs {
+		if ins == ssa.Instruction(get) {
+			started = true
+			continue
+		}
+		if !started {
+			continue
+		}
+		switch x := ins.(type) {
+		case *ssa.DebugRef:
+			continue
+		case *ssa.TypeAssert:
+			if vals[x.X] {
+				vals[x] = true
+				continue
+			}
+		case *ssa.Extract:
+			if vals[x.Tuple] {
+				vals[x] = true
+				continue
+			}
+		case *ssa.ChangeType:
+			if vals[x.X] {
+				vals[x] = true
+				continue
+			}
+		case *ssa.Store:
+			// spilled into a local cell (captured by a deferred closure)
+			if vals[x.Val] {
+				if al, ok := x.Addr.(*ssa.Alloc); ok {
+					vals[al] = true
+					continue
+				}
+			}
+		case *ssa.UnOp:
+			if vals[x.X] {
+				vals[x] = true
+				continue
+			}
+		case *ssa.Alloc, *ssa.MakeClosure, *ssa.Defer:
+			continue
+		case *ssa.Slice:
+			if vals[x.X] {
+				if k, ok := constInt(x.High); ok && k == 0 {
+					return true
+				}
+			}
+		case *ssa.Range:
+			if vals[x.X] {
+				// a loop over the object right after the Get: accept when its body deletes from it
+				for _, lb := range b.Parent().Blocks {
+					for _, li := range lb.Instrs {
+						if c, ok := li.(*ssa.Call); ok {
+							if bi, ok := c.Call.Value.(*ssa.Builtin); ok && bi.Name() == "delete" && len(c.Call.Args) > 0 && vals[c.Call.Args[0]] {
+								return true
+							}
+						}
+					}
+				}
+				return false
+			}
+		case *ssa.Call:
+			if bi, ok := x.Call.Value.(*ssa.Builtin); ok && bi.Name() == "clear" && len(x.Call.Args) == 1 && vals[x.Call.Args[0]] {
+				return true
+			}
+			if sc := x.Call.StaticCallee(); sc != nil && (sc.Name() == "Reset" || sc.Name() == "Truncate") && len(x.Call.Args) > 0 && vals[x.Call.Args[0]] {
+				return true
+			}
+			if x.Call.IsInvoke() && (x.Call.Method.Name() == "Reset") && vals[x.Call.Value] {
+				return true
+			}
+			for _, a := range x.Call.Args {
+				if vals[a] {
+					return false // handed to something else first
+				}
+			}
+			continue
+		}
+		for _, op := range ins.Operands(nil) {
+			if op != nil && vals[*op] {
+				return false
+			}
+		}
+	}
+	return false
 }
